@@ -160,7 +160,12 @@ def code_leg(ctx, rows, name, shard=300):
         INTERN.__init__()
         body = coq_list([coq_case(r) for r in part])
         text = CASES_HEADER % ("\n".join(INTERN.defs), body)
-        ok, out = ctx.coq_cases("%s_%d" % (name, sh), text)
+        ok, out = ctx.coq_cases("%s_%d_%d" % (name, os.getpid(), sh), text)
+        try:
+            os.remove(os.path.join(os.path.dirname(os.path.dirname(os.path.abspath(__file__))), "coq", "Cases",
+                                   "%s_%d_%d.v" % (name, os.getpid(), sh)))
+        except OSError:
+            pass
         m = re.search(r"M\s*=\s*(.*?)\s*:\s*list", out, re.S)
         if not ok or not m:
             ctx.broken.append(("correspondence:code-eval", "coqc on generated cases failed: " + out[-1200:]))
